@@ -1012,7 +1012,11 @@ fn build_goodbye_body(bye: &Goodbye) -> RtpResult<Vec<u8>> {
     }
     if let Some(reason) = &bye.reason {
         let bytes = reason.as_bytes();
-        let len = bytes.len().min(255) as u8;
+        let mut len = bytes.len().min(255);
+        while !reason.is_char_boundary(len) {
+            len -= 1;
+        }
+        let len = len as u8;
         body.push(len);
         body.extend_from_slice(&bytes[..len as usize]);
         // Padding to 32-bit boundary is handled by write_rtcp_packet
